@@ -22,6 +22,7 @@ mod c18;
 mod c19;
 mod c20;
 mod cairo_corpus;
+mod canon;
 mod sierra;
 mod core;
 mod pipe;
@@ -110,6 +111,29 @@ fn main() {
             let t = pipe::set_src_deps(&mut db, "test", "use mylib::{twice, K, Pt};\nfn f(a: u8) -> u8 { let p = Pt { x: a, y: K }; twice(p.x) + p.y }\n", &["mylib"], None);
             println!("{:?}", pipe::diagnostics(&db, &t));
             println!("{}", pipe::sierra(&db, &t).map(|p| p.to_string().len().to_string()).unwrap_or_else(|e| e));
+        }
+        Some("debug-compile") => {
+            let code = std::fs::read_to_string(&args[1]).unwrap();
+            let mut db = pipe::new_db(&pipe::Cfg::DEFAULT);
+            let ci = pipe::set_src(&mut db, "test", &code);
+            println!("{}", pipe::diagnostics(&db, &ci).0);
+            match pipe::sierra(&db, &ci) { Ok(p) => println!("sierra ok: {} funcs", p.funcs.len()), Err(e) => println!("{e}") }
+        }
+        Some("debug-gas") => {
+            let code = std::fs::read_to_string(&args[1]).unwrap();
+            let mut dbs = exec::Dbs::default();
+            let cfg = pipe::Cfg::DEFAULT;
+            let prog = dbs.compile(&cfg, &code).unwrap();
+            let c = pipe::make_runner(prog.clone(), &cfg).unwrap();
+            for f in &prog.funcs {
+                let Some(inputs) = exec::input_vectors(&prog, f, true, 3, 64) else { println!("{}: no inputs", pipe::fname(f)); continue };
+                for a in &inputs {
+                    let (o, full) = pipe::run(&c, f, a, Some(5_000_000));
+                    if let (pipe::Outcome::Value(v, g), Some(full)) = (o, full) {
+                        println!("{} {:?} -> {:?} gas_left {:?} steps {} builtins {:?}", pipe::fname(f), exec::args_str(a), v, g.map(|g| pipe::short_felt(&g)), full.used_resources.basic_resources.n_steps, full.used_resources.basic_resources.builtin_instance_counter);
+                    }
+                }
+            }
         }
         Some("list") => {
             for d in defs {
